@@ -170,7 +170,12 @@ func VerifH11() {
 	srv, err := NewServer(w.parse, opts...)
 	vAssert("newserver-ok", err == nil)
 	session := vCat(vStartup(vKV([]byte("user"), []byte("u"))), vMsgBytes('X', nil))
-	cancelInside := nondetBool()
+	repeatInside := nondetBool()
+	if repeatInside {
+		// a second SSLRequest sent inside the TLS session, then a startup packet
+		session = vCat(vSSLRequest, session)
+	}
+	cancelInside := !repeatInside && nondetBool()
 	if cancelInside {
 		// a CancelRequest (any pid/secret) sent after the SSL negotiation
 		session = vCat([]byte{0, 0, 0, 16, 0x04, 0xd2, 0x16, 0x2e}, nondetBytes(8), nondetBytes(vChoose(3)))
@@ -181,6 +186,13 @@ func VerifH11() {
 		run := vServeTLS(srv, vCat(vSSLRequest, stuffed), session)
 		vAssert("ssl-accepted-with-single-S", len(run.rawOut) >= 1 && run.rawOut[0] == 'S')
 		vAssert("nothing-but-TLS-after-S", vOnlyTLSRecords(run.rawOut[1:]))
+		if repeatInside {
+			// whatever the server makes of it, nothing may leave the TLS session
+			vAssert("closed", run.closed)
+			vAssert("repeated-sslrequest-output-wellformed", vWireOK(run.innerOut))
+			vReach("repeated-sslrequest-inside-tls")
+			return
+		}
 		if cancelInside {
 			vAssert("cancel-after-upgrade-no-reply", len(run.innerOut) == 0)
 			vAssert("cancel-after-upgrade-no-callback", len(seenUsers) == 0 && len(w.events) == 0)
@@ -201,7 +213,7 @@ func VerifH11() {
 		return
 	}
 	// without certificates: 'N', then the same connection continues in plaintext
-	if cancelInside {
+	if cancelInside || repeatInside {
 		return // cancel after the refusal is H12b
 	}
 	var rest []byte
